@@ -320,6 +320,10 @@ c.ensures("result/no-other-future-touched",
           f"implies({RI} and old({WID} in self.pending_work_items), " + OTHERS_UNTOUCHED.format(fut=FUT) + ")", prop=["C03", "C04"])
 c.ensures("result/unknown-id-touches-nothing", f"implies({RI} and not old({WID} in self.pending_work_items), {NO_FUTURE_TOUCHED})", prop=["C03", "C04"])
 c.ensures("result/id-forgotten", f"implies({RI}, {WID} not in self.pending_work_items)", prop=["C03", "C04"])
+# ... by the running list too, whatever the outcome of the task: the manager counts that list to decide whether a worker that left must be replaced (a failed task
+# left in it makes every idle time-out look like "a worker stopped while some jobs were given": the idle pool is respawned for ever)
+c.ensures("result/answered-id-leaves-the-running-list-whatever-the-outcome",
+          f"implies({RI} and old({WID} in self.pending_work_items), len(self.running_work_items) == old(len(self.running_work_items)) - 1)", prop=["C04", "C07"])
 c.ensures("result/other-pending-kept",
           f"implies({RI}, forall(Int, lambda k: implies(k != {WID}, (k in self.pending_work_items) == old(k in self.pending_work_items) and "
           "self.pending_work_items[k] is old(self.pending_work_items[k]))))", prop=["C03", "C04"])
@@ -799,6 +803,9 @@ c.ensures("shutdown/wakes-the-manager-under-the-shutdown-lock",
           f"log_before('{FLAGSD}', 'call:_ThreadWakeup.wakeup') and "
           "ordered('acquire', lambda l: l is self._shutdown_lock, 'call:_ThreadWakeup.wakeup', lambda r, w: True) and "
           "exists_event('acquire', lambda l: l is self._shutdown_lock))", prop=["C05", "C06"])
+# C06 (prompt, whatever else the process is doing): the manager thread is woken before, and without, waiting for the module-wide lock, which another thread holds
+# for as long as it drains a different executor (shutdown(wait=True)) or the interpreter exits: the kill must not queue behind somebody else's tasks
+c.at_call(f"{PE}:_ThreadWakeup.wakeup", "manager-woken-without-holding-or-waiting-for-the-module-wide-shutdown-lock", "not held(_global_shutdown_lock)", prop=["C06", "C05"])
 c.ensures("shutdown/waits-for-the-manager-when-asked",
           "implies(wait and old(self._executor_manager_thread) is not None, log_count('thread_join') == 1 and "
           "log_arg('thread_join', 0, 0) is old(self._executor_manager_thread) and log_before('call:_ThreadWakeup.wakeup', 'thread_join'))", prop=["C05", "C06"])
@@ -829,7 +836,7 @@ c.modifies("self._flags.shutdown", "self._flags.kill_workers", "self._executor_m
            "self._call_queue", "self._result_queue", "self._processes_management_lock", "G.concurrent_shutdown")
 
 # ---------------------------------------------------------------- feeder error path (C04)
-c = M.contract("_SafeQueue._on_queue_feeder_error", props=["C04"])
+c = M.contract("_SafeQueue._on_queue_feeder_error", props=["C04", "C07"])
 c.param("self", T.Ref("_SafeQueue")).param("e", T.Exc()).param("obj", T.Union(T.Ref("_CallItem"), T.NoneT))
 CI = "(obj is not None)"
 WIDF = "obj.work_id"
